@@ -482,12 +482,38 @@ static void dedupe_imports(Chunk **chunks, size_t num_chunks)
       }
       int ret_val = UncText::compare(s1, s2, std::min(s1.size(), s2.size()), options::mod_sort_case_sensitive());
 
-      if (ret_val == 0)
+      if (ret_val != 0)
+      {
+         continue;
+      }
+      // 'import a.b.C;' and 'using A.B;' are made of several chunks: the lines are
+      // duplicates only if the rest of the line is the same, too
+      Chunk *pc1 = chunks[idx - 1]->GetNext();
+      Chunk *pc2 = chunks[idx]->GetNext();
+
+      while (  pc1->IsNotNullChunk()
+            && pc2->IsNotNullChunk()
+            && !pc1->IsNewline()
+            && !pc2->IsNewline()
+            && !pc1->IsComment()
+            && !pc2->IsComment()
+            && pc1->GetStr().equals(pc2->GetStr()))
+      {
+         pc1 = pc1->GetNext();
+         pc2 = pc2->GetNext();
+      }
+
+      if (  (  pc1->IsNullChunk()
+            || pc1->IsNewline()
+            || pc1->IsComment())
+         && (  pc2->IsNullChunk()
+            || pc2->IsNewline()
+            || pc2->IsComment()))
       {
          delete_chunks_on_line_having_chunk(chunks[idx - 1]);
       }
    }
-}
+} // dedupe_imports
 
 
 /**
